@@ -429,6 +429,42 @@ func c02RelexJS(t *fw.T, tt js.TokenType, tok []byte, viaRegExp bool, a int, buf
 	return true
 }
 
+// c02Generated feeds the tiling monitor with documents of the grammar generators, so that every token kind occurs.
+func c02Generated(t *fw.T) {
+	r := t.Rng
+	var lang string
+	var src []byte
+	variant := 0
+	switch r.Intn(4) {
+	case 0:
+		lang = "css"
+		s, _ := gen.CSSSequence(r, 1+gen.SmallLen(r, 40))
+		src = []byte(s)
+	case 1:
+		lang = "js"
+		s, _ := gen.JSSequence(r, 1+gen.SmallLen(r, 60))
+		src = gen.ToValidUTF8([]byte(s))
+		variant = r.Intn(2) * 0 // RegExp() is exercised by C06; here the plain Next() sequence is tiled
+	case 2:
+		lang = "html"
+		variant = r.Intn(4)
+		o := gen.HTMLOpts{}
+		if variant >= 1 && variant <= 3 {
+			o.Tmpl = [][2]string{htmlDialects["go"], htmlDialects["ejs"], htmlDialects["php"]}[variant-1]
+		}
+		s, _ := gen.HTMLDoc(r, o)
+		src = []byte(s)
+	default:
+		lang = "xml"
+		s, _ := gen.XMLDoc(r)
+		src = []byte(s)
+	}
+	ctor := gen.Pick(r, inputCtors)
+	t.Desc(&c02Case{Lang: lang + " (generated)", Ctor: ctor, Data: src})
+	c02Check(t, lang, src, ctor, variant)
+	t.Count("generated."+lang, 1)
+}
+
 var c02Probes = []struct{ name, lang, data string }{
 	{"js-hash-sentinel", "js", "#"},
 	{"js-tilde-eq", "js", "a~=b"},
@@ -461,13 +497,14 @@ func init() {
 			"xml: tab/newline/CR -> space strictly inside a quoted attribute value",
 			"bytes consumed by a call that reports an error are covered by that report; after the first error only the generic clauses (content, order, inside the input) apply",
 			"js RegExp() is requested where a regular expression can start in well-formed code; a failing RegExp() counts as the first lexical error"},
-		Required: []string{"tokens.css", "tokens.js", "tokens.html", "tokens.xml", "relex", "html.bytes_lowercased", "xml.bytes_spaced", "html.gaps", "xml.gaps", "probes"},
+		Required: []string{"generated.css", "generated.js", "generated.html", "generated.xml", "tokens.css", "tokens.js", "tokens.html", "tokens.xml", "relex", "html.bytes_lowercased", "xml.bytes_spaced", "html.gaps", "xml.gaps", "probes"},
 		Streams: []fw.Stream{
 			{Name: "probes", Quick: len(c02Probes), Thorough: len(c02Probes), Run: c02Probe},
 			{Name: "css", Quick: 500000, Thorough: 12000000, Run: c02Run("css")},
 			{Name: "js", Quick: 500000, Thorough: 12000000, Run: c02Run("js")},
 			{Name: "html", Quick: 600000, Thorough: 14000000, Run: c02Run("html")},
 			{Name: "xml", Quick: 400000, Thorough: 10000000, Run: c02Run("xml")},
+			{Name: "generated", Quick: 300000, Thorough: 8000000, Run: c02Generated},
 		},
 	})
 }
